@@ -11,8 +11,9 @@
 (* Not logged (silent, the strategy's own steps): Tick, Consume, Drop.                          *)
 EXTENDS Auction, TraceLib
 
-VARIABLE l
-tvars == <<vars, l>>
+VARIABLES l,     \* next trace line
+          dl     \* trace only: delivery instant (ms) of the bids in chan, by <<relay, round>>
+tvars == <<vars, l, dl>>
 
 TraceInit ==
     /\ l = 1
@@ -31,6 +32,7 @@ TraceInit ==
     /\ offers = {}
     /\ inel = {}
     /\ auctions = 1
+    /\ dl = <<>>
     /\ InitHWM
 
 IsEvent(e) == l <= TraceLen /\ Trace[l].ev = e /\ l' = l + 1
@@ -44,16 +46,24 @@ TraceReset ==
     /\ cache' = [k \in Keys |-> Unset]
     /\ served' = NoReply
     /\ auctions' = 1
+    /\ dl' = <<>>
 
 TraceAuction ==
     /\ IsEvent("Auction")
     /\ NewAuction(Trace[l].key)
+    /\ dl' = <<>>
 
+\* The main loop is idle while it waits, so it takes a bid from the channel promptly: by the time a relay
+\* delivers at instant d, every bid delivered (in time) before d - w has been processed.  w (`w_ms`, set by
+\* the driver: 50 ms, far above the scheduling lateness a judged run may have; unbounded for a run that
+\* is widened because the machine stalled) only bounds the reorderings TLC has to consider.
 TraceDeliver ==
     /\ IsEvent("Deliver")
     /\ clock \in SeqToSet(Trace[l].phs)
     /\ Trace[l].n = rounds[Trace[l].r] + 1
+    /\ \A e \in chan : e.ph < 2 => dl[<<e.r, e.n>>] + Trace[l].w_ms >= Trace[l].d_ms
     /\ Deliver(Trace[l].r, Trace[l].a)
+    /\ dl' = (<<Trace[l].r, Trace[l].n>> :> Trace[l].d_ms) @@ dl
 
 LoggedPart(line, r) ==
     LET ps == {p \in SeqToSet(line.part) : p.r = r}
@@ -62,6 +72,7 @@ LoggedPart(line, r) ==
 \* C09 AllProvidersListed: every configured relay is listed in Results.AllProviders
 TraceReturn ==
     /\ IsEvent("Return")
+    /\ UNCHANGED dl
     /\ clock \in SeqToSet(Trace[l].clks)
     /\ Return
     /\ winner.r = Trace[l].win.r /\ winner.n = Trace[l].win.n /\ winner.score = Trace[l].win.score
@@ -71,11 +82,13 @@ TraceReturn ==
 
 TraceServe ==
     /\ IsEvent("Serve")
+    /\ UNCHANGED dl
     /\ Serve(Trace[l].key)
     /\ served'.bid = [r |-> Trace[l].bid.r, n |-> Trace[l].bid.n, k |-> Trace[l].bid.k]
 
 TraceSilent ==
     /\ Silent
+    /\ UNCHANGED dl
     /\ \/ Tick
        \/ \E e \in chan : Consume(e) \/ Drop(e)
 
